@@ -41,6 +41,10 @@ func c05Gen(t *rapid.T, cx *h.Ctx) C05Case {
 	c.Respell.KeywordCase = rapid.Uint32().Draw(t, "kwcase")
 	c.Respell.BareMultiPoint = rapid.Bool().Draw(t, "bare")
 	c.Respell.ExpNumerals = rapid.IntRange(0, 2).Draw(t, "exp")
+	if rapid.Bool().Draw(t, "mixspell") {
+		c.Respell.ParenMask = rapid.Uint32().Draw(t, "parenmask")
+		c.Respell.PlainMask = rapid.Uint32().Draw(t, "plainmask")
+	}
 	c.Trailing = rapid.SampledFrom(c05Trailing).Draw(t, "trailing")
 	return c
 }
